@@ -421,6 +421,23 @@ func run(c Case) (msg string, nontrivial bool) {
 			}
 			var m map[string]interface{}
 			_ = json.Unmarshal([]byte(eff), &m)
+			if c.Cfg.Typed && c.Cfg.Indexes > 0 {
+				bad := false
+				for k, v := range st.Vals {
+					if (k == "n" && strings.HasPrefix(v, `"`)) || (k == "a" && v == `17`) {
+						// only a value that actually changes the property reaches the decode step
+						if ov, ok := m[k]; !ok || canon(decode(v)) != canon(ov) {
+							bad = true
+						}
+					}
+				}
+				if bad {
+					if m := reject("the new value cannot be decoded into the configured type for indexing"); m != "" {
+						return m, nontrivial
+					}
+					continue
+				}
+			}
 			rev := map[string]string{}
 			for k, v := range st.Vals {
 				ov, ok := m[k]
@@ -620,6 +637,14 @@ func genCase() *rapid.Generator[Case] {
 					case !c.Cfg.Typed && rapid.IntRange(0, 2).Draw(t, "mixed") == 0:
 						// the same text as a number, a boolean and a string are different values
 						st.Vals[key] = rapid.SampledFrom([]string{`1`, `"1"`, `true`, `"true"`, `0.5`, `"0.5"`, `2`, `"2"`, `false`, `"false"`}).Draw(t, "mixedv")
+					case c.Cfg.Typed && c.Cfg.Indexes > 0 && rapid.IntRange(0, 5).Draw(t, "badtype") == 0:
+						// a value the configured struct type cannot hold: with an index set the
+						// change cannot be applied (the indexed value cannot be decoded)
+						if key == "n" {
+							st.Vals[key] = `"not a number"`
+						} else {
+							st.Vals[key] = `17`
+						}
 					case key == "n":
 						st.Vals[key] = rapid.SampledFrom(nums).Draw(t, "num")
 					default:
